@@ -2,7 +2,9 @@
 # Build the Coq development from clean (offline). Used as MANIFEST.setup_cmd.
 set -e
 cd "$(dirname "$0")/coq"
-coq_makefile -f _CoqProject -o Makefile $(find theories -name '*.v' | sort) > /dev/null
-timeout 3000 make -j16 > /tmp/verif_setup.log 2>&1 || { tail -50 /tmp/verif_setup.log; exit 1; }
-grep -c "Closed under the global context" /tmp/verif_setup.log || true
-rm -f /tmp/verif_setup.log
+find theories -name '*.v' | sort > .vfiles
+coq_makefile -f _CoqProject -o Makefile $(cat .vfiles) > /dev/null
+LOG=$(mktemp)
+timeout 3000 make -j16 > "$LOG" 2>&1 || { tail -50 "$LOG"; rm -f "$LOG"; exit 1; }
+echo "built $(wc -l < .vfiles) files; closed theorems: $(grep -c 'Closed under the global context' "$LOG" || true)"
+rm -f "$LOG"
